@@ -288,6 +288,13 @@ def check_C18(ctx, unit, nbits):
                 doms = {}
                 RB.check_shifts(ctx, "B3.shift-range", f, doms, instance_prefix="%s%s" % (f.sig, tag))
         # reference
+        for rr in unit.records:
+            if rr["uq"] == BS + "::reference" and rr["qn"].startswith(rec["qn"]):
+                sp = rr.get("special", {})
+                dflt = bool(sp.get("simple_copy_assign")) or any(m.get("n") == "operator=" and m.get("defaulted") for m in rr.get("methods", []))
+                ctx.inst("E.bitref", "%s::reference: copy assignment%s" % (BS, tag), not dflt, rr["loc"],
+                         "the proxy's copy assignment is implicit / defaulted: `b[i] = b[j]` rebinds the proxy instead of writing the bit"
+                         if dflt else "copy assignment is user-provided (it writes the referenced bit)", None)
         for f in unit.functions:
             if f.owner_cls == BS + "::reference" and f.owner_clsqn.startswith(rec["qn"]):
                 if f.name == "operator=" and f.params() and "reference" in f.params()[0]["t"]:
